@@ -113,16 +113,24 @@ def gen_knap(rng, big: bool):
         rng.shuffle(wts)
         vals = [num(rng, dv, 0, 9) for _ in range(n)]
         return {"fn": "knapsack", "values": vals, "weights": wts, "capacity": [ck, d, False], "minimize": minimize}
-    else:  # huge capacity: positive weights scaled below 1 are counted as 1
+    else:  # huge capacity (scale 1.6 .. 4): weights below 1/scale count as 1, truncation can overpack -> fallback
         d = 4
         c0 = rng.randint(25001, 60000)
         ck = c0 * 4 + rng.choice([1, 2, 3])
         n = rng.randint(2, 5)
-        small = [[rng.choice([1, 1, 2]), 4, False] for _ in range(n - 1)]
-        rest = ck - sum(s[0] for s in small) + rng.choice([0, 0, 0, 1, -1])
-        wts = [[rest, 4, False]] + small
+        if rng.random() < 0.5:
+            small = [[rng.choice([1, 1, 2]), 4, False] for _ in range(n - 1)]
+            rest = ck - sum(s[0] for s in small) + rng.choice([0, 0, 0, 1, -1])
+            wts = [[rest, 4, False]] + small
+        else:  # n similar parts adding up to the capacity plus/minus a quarter or two
+            tot = ck + rng.choice([-1, 0, 1, 1, 2, 3])
+            cuts = sorted(rng.randint(tot // (2 * n), tot - tot // (2 * n)) for _ in range(n - 1))
+            parts = [b - a for a, b in zip([0] + cuts, cuts + [tot])]
+            wts = [[max(0, q), 4, False] for q in parts]
+            if rng.random() < 0.5:
+                wts.append([rng.randint(1, ck), 4, False])
         rng.shuffle(wts)
-        vals = [num(rng, dv, 1, 9) for _ in range(n)]
+        vals = [num(rng, dv, 1, 9) for _ in range(len(wts))]
         return {"fn": "knapsack", "values": vals, "weights": wts, "capacity": [ck, 4, False], "minimize": minimize}
     fl = rng.random() < 0.3
     wts = [num(rng, d, 0, wmax, fl) for _ in range(n)]
@@ -359,6 +367,12 @@ def judge_knap(ctx, case, out, reply):
         ctx.tdiv(fn, {"case": case, "impl": r, "mirror": {"status": m_status, "sel": m_sel, "fallback": m_fb}})
     else:
         ctx.count("r_trace_agree")
+    # ... and, where floats are exact (integer weights, dyadic values), to the proved rational DP itself
+    if dp is not None and dyadic_vals and not m_fb:
+        if dp[0] != r["sol"]:
+            ctx.tdiv(fn, {"case": case, "impl": r, "rational_dp": dp})
+        else:
+            ctx.count("knap:proved_dp_selection_equal")
     if m_fb:
         ctx.count("knap:greedy_fallback")
     if not integer:
@@ -441,6 +455,12 @@ def judge_pack(ctx, case, out, reply):
         ctx.tdiv(fn, {"case": case, "impl": r, "mirror": {"status": f_status, "asg": f_asg, "k": f_k}})
     else:
         ctx.count("r_trace_agree")
+    # ... and, where floats are exact (integers, k/4), to the rational model binpack_valid talks about
+    if all(x[1] in (1, 4) for x in case["sizes"] + [case["capacity"]]):
+        if (r["status"], asg, k) != (r_status, r_asg, r_k):
+            ctx.tdiv(fn, {"case": case, "impl": r, "rational_mirror": [r_status, r_asg, r_k]})
+        else:
+            ctx.count("pack:proved_model_equal")
     if (f_asg, f_k) != (r_asg, r_k):
         ctx.count("pack:float_vs_rational_mirror_differ")
     ctx.case(canon, n >= 3 and f_k >= 2, {"case": case, "impl": r, "mirror": [f_status, f_asg, f_k], "optimum": opt})
